@@ -105,7 +105,8 @@ def cases(tier):
         sims = list(U.SIMS)
         prods = ["spot-1", "spot-05", "asian-y1", "asian-y2", "asian-m2", "asian-y3", "asian-m3"]
     else:
-        sims = ["levy-hem", "levy-merton", "chain-hem", "copula-chain", "coupling-hem", "coupling-cgmy12", "coupling-copula"]
+        sims = ["levy-hem", "levy-merton", "chain-hem", "chain-cgmy12", "copula-chain", "coupling-hem", "coupling-cgmy12",
+                "coupling-copula"]
         prods = ["spot-1", "asian-y2", "asian-m3"]
     for prod in prods:
         n = _n_intervals(prod)
